@@ -533,7 +533,8 @@ pub fn gen_and_run(seed: u64, index: u64, scratch: &str, cfg: &GenCfg, fenced: &
     let mut layout = Layout::default();
     match rng.below(10) {
         0 | 1 => layout.src = Some(rng.pick(&["custom_src", "source code", "."]).to_string()),
-        2 | 3 => layout.target = Some(rng.pick(&["out", "build.d", "py out"]).to_string()),
+        // ("src": the output directory IS the source directory, outputs lie next to the sources)
+        2 | 3 => layout.target = Some(rng.pick(&["out", "build.d", "py out", "src"]).to_string()),
         4 => {
             layout.src = Some("custom_src".into());
             layout.target = Some("out".into());
@@ -556,7 +557,9 @@ pub fn gen_and_run(seed: u64, index: u64, scratch: &str, cfg: &GenCfg, fenced: &
         layout.target_form = rng.pick(&["abs", "slash", "dotdot", "abs_outside", "symlink"]).to_string();
     }
     // symbolic links inside the source tree: a linked file, or a linked directory
-    if layout.src.as_deref() != Some(".") && rng.chance(1, 6) {
+    // (not when the outputs go into the source tree: they would be written through the link,
+    // and the judge looks at the physical tree)
+    if layout.src.as_deref() != Some(".") && !(layout.target.as_deref() == Some("src") && layout.src.is_none()) && rng.chance(1, 6) {
         let f = rng.pick(&files).path.clone();
         let first = f.split('/').next().unwrap_or("").to_string();
         if f.contains('/') && rng.chance(1, 2) {
@@ -867,7 +870,8 @@ pub fn gen_and_run(seed: u64, index: u64, scratch: &str, cfg: &GenCfg, fenced: &
         push(&mut sc, &mut h, t);
     }
     // last act, sometimes: an obstacle in the output directory, then a run
-    if !cur_files.is_empty() && rng.chance(1, 6) {
+    let same_dir = sc.layout.target.as_deref() == Some("src") && sc.layout.src.is_none();
+    if !cur_files.is_empty() && !same_dir && rng.chance(1, 6) {
         let f = rng.pick(&cur_files).clone();
         let m = mirrored(&f.path, &sc.layout);
         let entry = if rng.chance(1, 5) {
